@@ -11,7 +11,7 @@ NoFilters == {}
 NoStates == {}
 NoHist == {}
 VARIABLE tid
-Conv(L) == [i \in 1..Len(L) |-> [f |-> {L[i].f[j] : j \in 1..Len(L[i].f)}, ig |-> L[i].ig]]
+Conv(L) == [i \in 1..Len(L) |-> [f |-> {L[i].f[j] : j \in 1..Len(L[i].f)}, ig |-> L[i].ig, dc |-> L[i].dc]]
 TraceInit ==
   /\ tid \in 1..Len(Obs)
   /\ LET o == Obs[tid] IN
